@@ -208,6 +208,19 @@ func runOther(run *lib.Run, seed uint64, flatten bool, typ int, typename, kind s
 		rs = append(rs, fmt.Sprintf("(%d,%s)", v, lib.CoqBool(a.Status == b.Status && string(a.Body) == string(b.Body))))
 	}
 	run.Count("copy:" + kind)
+	if seed%2 == 1 {
+		// the copy must also survive a restart (its properties are persisted with the repo metadata):
+		// results of the reads after the restart are recorded under version + 100
+		datastore.CloseReopenTest()
+		for v := 1; v <= len(uuids); v++ {
+			if flatten && v != fv {
+				continue
+			}
+			a, b := read(uuids[v-1], "src"), read(uuids[v-1], "dst")
+			rs = append(rs, fmt.Sprintf("(%d,%s)", v+100, lib.CoqBool(a.Status == b.Status && string(a.Body) == string(b.Body))))
+		}
+		run.Count("copy-then-restart:" + kind)
+	}
 	fl := 0
 	if flatten {
 		fl = fv
@@ -242,7 +255,12 @@ func runImageblk(run *lib.Run, seed uint64, flatten bool) {
 	read := func(u, inst string) dv.Resp {
 		return dv.Get(fmt.Sprintf("/api/node/%s/%s/raw/0_1_2/96_64_64/-32_0_0", u, inst))
 	}
-	runOther(run, seed, flatten, 4, "uint8blk", "imageblk", nil, post, nil, read)
+	// half of the runs use a non-default block size (a property the copy takes over from its source)
+	var extra map[string]string
+	if seed%4 >= 2 {
+		extra = map[string]string{"BlockSize": "16,16,16"}
+	}
+	runOther(run, seed, flatten, 4, "uint8blk", "imageblk", extra, post, nil, read)
 }
 
 // runBulk: more keys than the copy goroutine's channel holds, first and last keys of the range,
@@ -369,7 +387,7 @@ func main() {
 	o := lib.ParseOpts()
 	rng := lib.NewRand(o.Seed)
 	run := lib.NewRun("C19", o)
-	run.Header("From DV Require Import Base.Prelude Model.Dag Model.Resolve Model.Core Model.ResolveRun Model.CopyRun.", "Local Open Scope N_scope.")
+	run.Header("From DV Require Import Base.Prelude Model.Dag Model.Resolve Model.Core Model.ResolveRun Model.Transfer Model.CopyRun.", "Local Open Scope N_scope.")
 	dv.Quiet()
 	dv.Open()
 	defer dv.Close()
@@ -380,7 +398,12 @@ func main() {
 			fmt.Fprintln(os.Stderr, err)
 			os.Exit(2)
 		}
-		if c.Kind == "roi" {
+		if c.Kind == "transfer" {
+			var tc transferCase
+			lib.LoadReplay(o.Replay, &tc)
+			runTransfer(run, tc.Seed, tc.Typ)
+			closeDst()
+		} else if c.Kind == "roi" {
 			runROI(run, rng, c.Seed, c.Flat > 0)
 		} else if c.Kind == "annotation" {
 			runAnnotation(run, c.Seed, c.Flat > 0)
@@ -415,6 +438,11 @@ func main() {
 	}
 	runBulk(run, rng.U64()%1000000, false)
 	runBulk(run, rng.U64()%1000000, true)
+	// version-limited transfer onto a second store (MigrateInstance with a uuid list)
+	for i := 0; i < n/2+4; i++ {
+		runTransfer(run, rng.U64()%1000000, []string{"keyvalue", "keyvalue", "roi"}[i%3])
+	}
+	closeDst()
 	// instance ids at byte boundaries (0xFF -> 0x100): the source key range is built from id and id+1
 	runBoundaryIDs(run)
 	run.Finish("c19case",
